@@ -135,7 +135,7 @@ def run(ck):
         start = int(agg.Nb[0])
         temps = list(LADDER) + [rng.choice([3.3, 17.0, 150.0])] + [None]
         if ck.quick:
-            temps = [0.0, 1e-3, 1.0, 1.4, 5.0, 77.0, 300.0, None] if s % 2 == 0 else [0.0, 0.01, 0.1, 2.0, 10.0, 1000.0, rng.choice([3.3, 150.0])]
+            temps = [0.0, 1e-3, 1.0, 1.4, 5.0, 12.0, 20.0, 77.0, 300.0, None] if s % 2 == 0 else [0.0, 0.01, 0.1, 2.0, 10.0, 20.0, 1000.0, rng.choice([3.3, 150.0])]
         outside_state = {}
         outside_thermal = {}
         for T in temps:
